@@ -1,5 +1,6 @@
 import Driver.Util
 import RPVerif.Model.Raptor
+import RPVerif.Gen.Raptor
 open Lean RPVerif.Raptor
 
 namespace Driver.Raptor
@@ -49,6 +50,15 @@ def handle (j : Json) : Json :=
     Json.mkObj [("answers", jl r.2.2), ("cores", jbl r.1.cores), ("gpus", jbl r.1.gpus)]
   else if op == "life" then
     lsJson (lrun (jbool j "flag") {} ((jarr j "choices").map (fun c => choiceOf (asStr c))))
+  else if op == "start" then
+    let ch : Json → SChoice := fun c =>
+      if asStr c == "req" then SChoice.req else if asStr c == "proc" then SChoice.proc else SChoice.watcher
+    let st := srun RPVerif.Gen.startInPoolLock {} ((jarr j "choices").map ch)
+    let rqs : String := match st.rq with
+      | .idle => "idle" | .locked => "locked" | .started => "started" | .registered => "registered" | .done => "done"
+    Json.mkObj [("rq", Json.str rqs),
+                ("queued", Json.bool st.queued), ("in_pool", Json.bool st.inPool), ("held", Json.bool st.held),
+                ("answered", Json.bool st.answered), ("watcher", Json.bool st.watcher)]
   else if op == "fwd" then
     let keyOf : Json → Option Nat := fun k => match k with | .null => none | v => some (asNat v)
     let r := (jarr j "ops").foldl (fun (s : Fwd) o =>
